@@ -60,7 +60,7 @@ def honest_case(run, h, pts, batch, rng, M, cid, cb, mb, ctx):
     st, ep = e["req"]["state"], e["proof"]
     c = e["chal"]["c"]
     run.check_corr("corr.C01.prover_and_verifier_hash_the_same_transcript",
-                   mi["chal"]["chunks"] == e["chal"]["chunks"] and e["chal"]["digest_ok"], case)
+                   "".join(mi["chal"]["chunks"]) == "".join(e["chal"]["chunks"]) and e["chal"]["digest_ok"], case)
     dl, rec = establish_dls(M, st, e["req"]["bf_token"], e["req"]["bf_close"], ep, c)
     named = [st["nonce"], st["secret"], e["req"]["bf_token"], e["req"]["bf_close"], rec["kbf_s"], rec["kbf_c"]] + rec["ks"] + [rec["kc"][1]]
     run.check_corr("corr.C01.randomness_is_fresh_draws", all(x in e["served"] for x in named) and len(set(named)) == len(named),
@@ -103,7 +103,7 @@ def honest_case(run, h, pts, batch, rng, M, cid, cb, mb, ctx):
         zlit(rec["kbf_s"]), zlist(rec["ks"]), zlit(e["req"]["bf_close"]), zlit(rec["kbf_c"]), zlit(rec["kc"][1]), zlit(c)), cmp_prove)
     # model: transcript
     def cmp_tr(r, case=case, chunks=mi["chal"]["chunks"]):
-        run.check_corr("corr.C01.establish_transcript", concretize_atoms(pts, r) == chunks, dict(case, n_chunks=len(chunks)))
+        run.check_corr("corr.C01.establish_transcript", "".join(concretize_atoms(pts, r)) == "".join(chunks), dict(case, n_chunks=len(chunks)))
     batch.add("r_establish_transcript %s %s %s %s %s %s" % (coq_pk(pk), zlit(ms[0]), zlit(cb), zlit(mb), coq_eproof_args(dl),
                                                           zlist(list(sha3(ctx)))), cmp_tr)
     # model: verifier + blind signatures
